@@ -8,7 +8,7 @@
    hands the lexemes to the serializer's `Out` (spacing; owned by C05), re-parsing runs the shared
    tokenizer model and the value grammar (prodparser; unmodelled).  `Out` and the grammar are Section
    variables of RoundtripFacts.v with named hypotheses.                                              *)
-From CssV Require Import Base Regex Tokenizer Quote Gen.Quote QuoteFacts.
+From CssV Require Import Base Regex Tokenizer Quote Gen.Quote QuoteFacts QuoteStrFacts.
 
 Inductive item :=
 | IStr (v : str)               (* a STRING token's value *)
@@ -35,12 +35,12 @@ Section WithSeparators.
     exists follow t', sepok follow /\ first_token true false (ser_item i ++ follow) = Some t' /\
                       ty t' = ty t /\ val t' = val t.
 
-  (* items whose own text is read back as themselves: for representable strings (QuoteFacts.rep_ok) this is proved
+  (* items whose own text is read back as themselves: for representable strings (QuoteStrFacts.rep_okc) this is proved
      (QuoteFacts.string_roundtrip_lemma, for every following text); for the other tokens it is a
      hypothesis about the lexeme (numbers: C17 number_roundtrip; identifiers, hashes, functions: C09/C10) *)
   Definition wf_item (i : item) : Prop :=
     match i with
-    | IStr v => representable v
+    | IStr v => representable_str v
     | ILex ty0 x => ty0 <> s "STRING" /\
                     forall follow t, sepok follow -> first_token true false (x ++ follow) = Some t ->
                                      ty t = ty0 /\ val t = x
